@@ -319,9 +319,9 @@ func c03Gen() *rapid.Generator[c03Case] {
 			case "walk", "walkiter":
 				c.Also = rapid.SampledFrom([]string{"json", "yaml", "toml", "strict", "exts", "noiter"}).Draw(t, "alsoOpt")
 			case "mkdir":
-				c.Also = rapid.SampledFrom([]string{"strict", "noiter"}).Draw(t, "alsoOpt")
+				c.Also = rapid.SampledFrom([]string{"strict", "noiter", "json", "yaml", "toml"}).Draw(t, "alsoOpt")
 			case "verify":
-				c.Also = rapid.SampledFrom([]string{"exts", "noiter", "dry"}).Draw(t, "alsoOpt")
+				c.Also = rapid.SampledFrom([]string{"exts", "noiter", "dry", "json", "yaml", "toml"}).Draw(t, "alsoOpt")
 			}
 		}
 		c.Prog = genProgram(t, tree, rapid.Bool().Draw(t, "shuffle"), rapid.Bool().Draw(t, "repeats"))
